@@ -805,6 +805,66 @@ def emit_disambig(d) -> str:
             f"Definition src_dis_skip_noninit : bool := {_coq_bool(d['skip_noninit'])}.\n")
 
 
+# ------------------------------------------------------- hook tables (CONV model)
+
+HOOK_PRED = {
+    "is_protocol": "PProtocol", "lambda t: get_final_base(t) is not None": "PFinal", "is_type_alias": "PTypeAlias",
+    "is_literal_containing_enums": "PLiteralEnums", "is_mapping": "PMapping", "is_sequence": "PSequence", "is_mutable_set": "PMutableSet",
+    "is_frozenset": "PFrozenSet", "lambda t: issubclass(t, Enum)": "PEnumSub", "has": "PHas", "is_union_type": "PUnion",
+    "lambda t: t in ANIES": "PAnies", "lambda cl: cl in ANIES or cl is Optional or cl is None": "PAniesOpt", "is_generic_attrs": "PGenericAttrs",
+    "lambda t: get_newtype_base(t) is not None": "PNewType", "is_literal": "PLiteral", "is_deque": "PDeque", "is_tuple": "PTuple",
+    "is_namedtuple": "PNamedTuple", "is_supported_union": "PSupportedUnion", "is_optional": "POptional",
+    "lambda t: is_union_type(t) and t in self._union_struct_registry": "PUnionRegistry", "has_with_generic": "PHasWithGeneric",
+    "is_annotated": "PAnnotated", "is_hetero_tuple": "PHeteroTuple", "is_counter": "PCounter", "is_defaultdict": "PDefaultDict", "is_typeddict": "PTypedDict",
+}
+HOOK_HANDLER_ST = {
+    "lambda v, _: v": "HPassValue", "self._gen_structure_generic": "HGenStructGeneric", "self._structure_newtype": "HStructNewType",
+    "type_alias_structure_factory": "HTypeAliasStructFactory", "self._structure_final_factory": "HFinalStructFactory",
+    "self._structure_simple_literal": "HSimpleLiteral", "self._structure_enum_literal": "HEnumLiteral", "list_structure_factory": "HListFactory",
+    "self._structure_deque": "HStructDeque", "self._structure_set": "HStructSet", "self._structure_frozenset": "HStructFrozenSet",
+    "self._structure_tuple": "HStructTuple", "namedtuple_structure_factory": "HNamedTupleStructFactory", "self._structure_dict": "HStructDict",
+    "self._gen_attrs_union_structure": "HAttrsUnion", "self._structure_optional": "HStructOptional",
+    "self._union_struct_registry.__getitem__": "HUnionRegistryGet", "self._structure_attrs": "HStructAttrs", "self._structure_call": "HStructCall",
+    "self.gen_structure_attrs_fromdict": "HGenStructAttrsFromDict", "self.gen_structure_annotated": "HGenStructAnnotated",
+    "self.gen_structure_mapping": "HGenStructMapping", "self.gen_structure_counter": "HGenStructCounter",
+    "defaultdict_structure_factory": "HDefaultDictFactory", "self.gen_structure_typeddict": "HGenStructTypedDict", "self.get_structure_newtype": "HGetStructNewType",
+}
+HOOK_HANDLER_UN = {
+    "identity": "HIdentity", "str": "HPathStr", "lambda o: self.unstructure(o, unstructure_as=o.__class__)": "HUnstructProtocol",
+    "lambda t: self.get_unstructure_hook(get_final_base(t))": "HFinalUnstructFactory",
+    "lambda t: self.get_unstructure_hook(get_type_alias_base(t))": "HTypeAliasUnstructFactory", "self.unstructure": "HUnstructure",
+    "self._unstructure_mapping": "HUnstructMapping", "self._unstructure_seq": "HUnstructSeq", "self._unstructure_enum": "HUnstructEnum",
+    "self._unstructure_attrs": "HUnstructAttrs", "self._unstructure_union": "HUnstructUnion",
+    "self.gen_unstructure_attrs_fromdict": "HGenUnstructAttrsFromDict", "self.gen_unstructure_annotated": "HGenUnstructAnnotated",
+    "self.gen_unstructure_hetero_tuple": "HGenUnstructHeteroTuple", "namedtuple_unstructure_factory": "HNamedTupleUnstructFactory",
+    "self.gen_unstructure_iterable": "HGenUnstructIterable", "self.gen_unstructure_mapping": "HGenUnstructMapping",
+    "lambda cl: self.gen_unstructure_iterable(cl, unstructure_to=set)": "HGenUnstructIterableSet",
+    "lambda cl: self.gen_unstructure_iterable(cl, unstructure_to=frozenset)": "HGenUnstructIterableFrozenSet",
+    "self.gen_unstructure_optional": "HGenUnstructOptional", "self.gen_unstructure_typeddict": "HGenUnstructTypedDict",
+    "lambda t: self.get_unstructure_hook(get_newtype_base(t))": "HUnstructNewType",
+}
+HOOK_CLS = {"str": "CStr", "bytes": "CBytes", "int": "CInt", "float": "CFloat", "Enum": "CEnum", "Path": "CPath"}
+
+
+def emit_hooks(cv) -> str:
+    file = "src/cattrs/converters.py"
+
+    def look(d, k, line, what):
+        if k not in d:
+            raise T1Unrecognised(file, line, f"{what} `{k}` is not one the nested model knows")
+        return d[k]
+    out = ["(* GENERATED by harness/t1_translate.py from src/cattrs/converters.py -- do not edit *)", "From V.Model Require Import Base HookTable."]
+    for d, hd, tag in (("structure", HOOK_HANDLER_ST, "st"), ("unstructure", HOOK_HANDLER_UN, "un")):
+        cls = "; ".join(f"({look(HOOK_CLS, e['cls'], e['line'], 'class')}, {look(hd, e['handler'], e['line'], 'handler')})" for e in cv["base_tables"][d]["cls"])
+        base = "; ".join(f"({look(HOOK_PRED, e['pred'], e['line'], 'predicate')}, {look(hd, e['handler'], e['line'], 'handler')})" for e in cv["base_tables"][d]["func"])
+        conv = "; ".join(f"({'true' if e['cond'] == 'AS_DICT' else 'false'}, {look(HOOK_PRED, e['pred'], e['line'], 'predicate')}, {look(hd, e['handler'], e['line'], 'handler')})"
+                         for e in cv["conv_regs"][d])
+        out.append(f"Definition src_{tag}_cls : list (hcls * hhandler) := [{cls}].")
+        out.append(f"Definition src_{tag}_base : list (hpred * hhandler) := [{base}].")
+        out.append(f"Definition src_{tag}_conv : list (bool * hpred * hhandler) := [{conv}].")
+    return "\n".join(out) + "\n"
+
+
 # ------------------------------------------------------- in-place edits (C11)
 
 def _strings_of(fn):
@@ -984,6 +1044,15 @@ def main():
         summary["ok"] = False
         summary["errors"].append(str(e))
         summary["sections"]["disambig"] = False
+    try:
+        if not summary["sections"].get("converters"):
+            raise T1Unrecognised("src/cattrs/converters.py", 0, "hook tables need the converters section")
+        write("HooksSrc.v", emit_hooks(summary["converters"]))
+        summary["sections"]["hooks"] = True
+    except T1Unrecognised as e:
+        summary["ok"] = False
+        summary["errors"].append(str(e))
+        summary["sections"]["hooks"] = False
     try:
         al = translate_alias(repo)
         write("AliasSrc.v", emit_alias(al))
